@@ -26,7 +26,7 @@ def static_oracle(cases, parts=8, timeout=3000):
             of = os.path.join(tmp, "out%d.ndjson" % k)
             with open(cfn, "w") as f:
                 for c in sub:
-                    f.write(json.dumps({"id": c["id"], "prog": c["prog"]}) + "\n")
+                    f.write(json.dumps({"id": c["id"], "prog": bsyntax.to_tlc(c["prog"])}) + "\n")
             open(of, "w").close()
             r = vlib.tlc("MCBlochStatic.tla", os.path.join(vlib.SPEC, "MCBlochStatic.cfg"), env={"STATIC_CASES": cfn, "STATIC_OUT": of},
                          workers=max(2, vlib.JOBS // parts), timeout=timeout, heap="4g")
@@ -125,10 +125,10 @@ def run(tier, seed):
                    "other objects, inherited, methods, outside); decl = @quantum x 10 return types on functions/methods, @shots, void "
                    "variables/parameters/fields, final without initialiser, duplicate parameters; scope = 27 declaration/use shapes x 7 contexts; "
                    "ret = 5 return forms x 11 contexts x 7 nestings; hier = 10 abstract hierarchies x every class x 5 positions x class "
-                   "declaration orders; 400 cases re-rendered with shuffled top-level declaration order."}
+                   "declaration orders; gen = 8 generic types x 10 sources x 5 sinks (instantiations monomorphised for the specification), members of instantiations; 400 cases re-rendered with shuffled top-level declaration order."}
     vlib.write_evidence(PID, tier, seed, "exploration", cov,
                         ["cases the documentation leaves open (value of a nested assignment, mixed-type operators, returns in constructors, long "
                          "into int[]) get verdict 'unspec' from the specification and are not compared",
-                         "generic classes and quantum statements are outside BlochStatic's fragment (C08/C15 cover their dynamic behaviour)"],
+                         "generic classes reach BlochStatic monomorphised (harness/py/bsyntax.py): each instantiation is its own class; quantum statements are outside the fragment"],
                         time.time() - t0, len(bad))
     return out.finish()
